@@ -461,7 +461,9 @@ EXTRA = [
          expect="breaks", why="the counter is declared natural: `-` gives an Int, which cannot be assigned back -> refused"),
     dict(kernel="is_compatible", file=PA, kind="mutation",
          edits=[("(track.channel_format is alloc_channel.channel_format and", "(track.channel_format == alloc_channel.channel_format and")],
-         expect="breaks", why="`==` on identity tokens (attrs classes compare by value): only `is` is whitelisted there -> refused"),
+         also=["could_possibly_allocate"],
+         expect="breaks", why="`==` on identity tokens (attrs classes compare by value): only `is` is whitelisted there -> refused "
+                              "(could_possibly_allocate calls the stubbed def, so its theorem cannot be stated either)"),
     dict(kernel="validate_track_or_channel", file=VA, kind="mutation",
          edits=[("        if atu.audioTrackFormat is not None and atu.audioChannelFormat is not None:\n            raise AdmError(",
                  "        if atu.audioTrackFormat is not None and atu.audioChannelFormat is not None:\n            return\n            raise AdmError(")],
@@ -477,7 +479,7 @@ EXTRA = [
          expect="breaks", why="branches of different kinds (number / Option) -> refused"),
     dict(kernel="in_by_id", file=SU, kind="mutation",
          edits=[("return any(element is item for item in collection)", "return any(element is item for item in collection if item is not None)")],
-         expect="breaks", why="filtered comprehension under any() -> refused"),
+         also=INBY, expect="breaks", why="filtered comprehension under any() -> refused (its callers' theorems go with it)"),
 ]
 
 
@@ -650,7 +652,7 @@ def main():
                 bad += 1
                 continue
             outcome = "holds" if r["props_build"] and not r["failing"] else "breaks"
-            only_own = set(r["failing"]) <= set(thm[n])
+            only_own = set(r["failing"]) <= set(thm[n]) | set(t for m in x.get("also", []) for t in thm[m])
             if outcome != x["expect"] or not only_own:
                 bad += 1
             print("   %-22s [%s] equality %s (expected %s) failing=%s%s\n   %22s   %s" % (
